@@ -1,5 +1,5 @@
 (* C12 — LSB0 mode is a pure index mirror of MSB0 mode (statements; SeqProofs.v). *)
-From BS Require Import Prims BitsCore Search Mutators SeqProofs MirrorProofs SearchProofs SearchTop LsbSearch LsbMutators LsbSplit MirrorStep.
+From BS Require Import Prims BitsCore Search Mutators SeqProofs MirrorProofs SearchProofs SearchTop LsbSearch LsbMutators LsbSplit MirrorStep Golomb Stream Pack PackProofs LsbPack.
 Open Scope Z_scope.
 
 (* bit i of X in lsb0 numbering is bit i of (rev X) in msb0 numbering, for every index incl. negative and out of range *)
@@ -186,3 +186,57 @@ Print Assumptions C12_mirror_append_prepend.
 Print Assumptions C12_mirror_imul.
 Print Assumptions C12_mirror_byteswap.
 Print Assumptions C12_extended_assignment_item_by_item.
+
+(* ------------------------------------------------------------------------------------------------------------------------------------
+   read / peek / readlist / peeklist / unpack / pack order under lsb0 (LsbPack.v). The mode-dependent readers read_fixed_m / read_var_m,
+   read_list_loop_m, unpack_m, readlist_m, peeklist_m, read_token_m and the packer pack_m are the model of the code with options.lsb0 as a
+   parameter; with the option off they ARE the msb0 model of Stream.v / Pack.v: *)
+Theorem C12_readers_with_option_off : (forall b ts, unpack_m false b ts = unpack b ts) /\ (forall s ts, readlist_m false s ts = readlist s ts) /\
+  (forall s t, read_token_m false s t = read_token s t) /\ (forall toks vals, pack_m false toks vals = pack false toks vals).
+Proof. repeat split; [exact unpack_m_false|exact readlist_m_false|exact read_token_m_false|intros; apply pack_m_agree; now left]. Qed.
+(* pack order: both modes build the same per-token stores; msb0 joins them in order, lsb0 in reverse order (first token at the least
+   significant end); same errors; and so lsb0 pack is msb0 pack of the reversed token and value lists *)
+Theorem C12_pack_order : forall (lsb0 : bool) (toks : list (token * option value)) (vals : list value),
+  pack lsb0 toks vals = res_map (fun bs : list (list bool) => concat (if lsb0 then rev bs else bs)) (pack_parts toks vals).
+Proof. exact pack_by_parts. Qed.
+Theorem C12_pack_same_errors : forall toks vals e, pack true toks vals = Err e <-> pack false toks vals = Err e.
+Proof. exact pack_lsb0_same_errors. Qed.
+Theorem C12_pack_is_reversed_msb0_pack : forall toks vals, no_var toks = true -> pack true toks vals = pack false (rev toks) (rev vals).
+Proof. exact pack_lsb0_is_reversed_msb0. Qed.
+(* ... and the lsb0 unpack of an lsb0 pack returns the values, reading exactly to the end *)
+Theorem C12_unpack_inverts_pack_lsb0 : forall toks vals b, pack true toks vals = Ok b -> all_supported toks vals = true -> no_var toks = true ->
+  read_dtype_list_m true b (map fst toks) 0 = Ok (used_values toks vals, zlen b) /\ unpack_m true b (map fst toks) = Ok (used_values toks vals).
+Proof. exact unpack_pack_lsb0. Qed.
+(* the mirror form, for EVERY token list, position and filler allowance: the lsb0 read of d is the msb0 read of (rev d) with each field
+   reversed back before it is interpreted (interp_mirror); same positions, same errors *)
+Theorem C12_read_list_mirror : forall d ts pos after, read_list_loop_m true d ts pos after = read_list_gen read_fixed_mirror read_var_mirror (rev d) ts pos after.
+Proof. exact read_list_lsb0_mirror. Qed.
+Theorem C12_interp_mirror : forall k f, interp_mirror k f = match k with KUint | KInt => interp k (rev f) | _ => res_map rev_value (interp k f) end.
+Proof. exact interp_mirror_spec. Qed.
+(* for bit-valued tokens (bits, bin, hex, bytes, bool, pad, counts; one length-less token allowed) that is literally
+   "the msb0 result on the reversed operand, reversed back" *)
+Theorem C12_read_list_mirror_bits : forall d ts, forallb bitlike ts = true -> forall pos after,
+  read_list_loop_m true d ts pos after = res_map rev_values (read_list_loop (rev d) ts pos after).
+Proof. exact read_list_lsb0_mirror_bits. Qed.
+(* the field rule: an in-range lsb0 read of bl bits at p is the msb0 read at len - p - bl of the SAME stored bits (uint, int, hex, bytes,
+   bool interpret the field in stored order in both modes); read(n) returns d[len-p-n : len-p] and advances pos by n *)
+Theorem C12_read_field_rule : forall k d p bl, 0 <= p -> 0 <= bl -> p + bl <= zlen d -> read_fixed_m true k d p bl = read_fixed k d (zlen d - p - bl) bl.
+Proof. exact read_fixed_lsb0_pos. Qed.
+Theorem C12_read_count : forall d p n, 0 <= n -> 0 <= p -> p + n <= zlen d ->
+  read_token_m true (mkstream d p) (TCount n) = (mkstream d (p + n), Ok (ValBits (sub d (zlen d - p - n) (zlen d - p)))).
+Proof. exact read_token_lsb0_count. Qed.
+(* exp-Golomb codes have no lsb0 storage order: pack refuses them and every reader raises ReadError, pos unchanged *)
+Theorem C12_golomb_refused_under_lsb0 : (forall toks vals, no_var toks = false -> pack_m true toks vals = Err ValueError) /\
+  (forall d c p, read_token_m true (mkstream d p) (TVar c) = (mkstream d p, Err ReadError)).
+Proof. split; [exact pack_m_golomb|intros; apply read_golomb_lsb0; exact 0]. Qed.
+Print Assumptions C12_readers_with_option_off.
+Print Assumptions C12_pack_order.
+Print Assumptions C12_pack_same_errors.
+Print Assumptions C12_pack_is_reversed_msb0_pack.
+Print Assumptions C12_unpack_inverts_pack_lsb0.
+Print Assumptions C12_read_list_mirror.
+Print Assumptions C12_interp_mirror.
+Print Assumptions C12_read_list_mirror_bits.
+Print Assumptions C12_read_field_rule.
+Print Assumptions C12_read_count.
+Print Assumptions C12_golomb_refused_under_lsb0.
